@@ -14,6 +14,10 @@ def cases(tier, seed):
                 for d in ((1, 2) if tier != "quick" else (2,)):
                     for kmeans0 in ((True, False) if (n + k) % 2 == 0 or tier != "quick" else (True,)):
                         yield dict(n=n, k=k, strategy=strategy, d=d, kmeans0=kmeans0, seed=seed)
+    for j in range(40 if tier == "quick" else 400):
+        rs = numpy.random.RandomState(77 * seed + j)
+        k = int(rs.randint(2, 7))
+        yield dict(kind="gain-invariants", n=k * int(rs.randint(1, 7)) + int(rs.randint(0, k)), k=k, d=int(rs.randint(1, 4)), seed=1000 * seed + j)
     # 'gain' on the part of the domain where the unchanged code keeps the sizes (n mod k <= 1): few iterations, so that the labels
     # of an early association pass are the ones returned (transfer lists, swaps with a partner that has already moved)
     for j in range(240 if tier == "quick" else 2400):
@@ -24,6 +28,66 @@ def cases(tier, seed):
                    gauss=True, only_fit=True)
 
 
+def gain_invariants(c):
+    """native cross-check of the loop invariant PROVED for _constraint_association_gain (contracts/C07.py _gain_book): the real function runs
+    on random data under sys.settrace and, at the head of every iteration of its main loop, the counters must count the labels and a
+    listed point that is not flagged as moved must still be in the cluster it wants to leave"""
+    import ast, inspect, sys, textwrap
+    import mlinsights.mlmodel._kmeans_constraint_ as M
+    fn = M._constraint_association_gain
+    src = textwrap.dedent(inspect.getsource(fn))
+    loops = [nd for nd in ast.walk(ast.parse(src)) if isinstance(nd, (ast.For, ast.While))]
+    loops.sort(key=lambda nd: nd.lineno)
+    heads = [nd for nd in loops if isinstance(nd, ast.For) and "sorted_distances" in ast.unparse(nd.iter)]
+    if len(heads) != 1:
+        return None                                   # the function was restructured: nothing to cross-check here
+    head = fn.__code__.co_firstlineno + heads[0].lineno - 1
+    n, k, d = c["n"], c["k"], c["d"]
+    rs = numpy.random.RandomState(c["seed"])
+    X = rs.randn(n, d)
+    if c["seed"] % 2:
+        X = numpy.round(X * 2) / 2
+    centers = X[rs.permutation(n)[:k]] + 0.01 * rs.randn(k, d)
+    labels = rs.randint(0, k, n).astype(numpy.int32)
+    counters = numpy.empty((k,), dtype=numpy.int32)
+    leftclose = numpy.empty((k,), dtype=numpy.int32)
+    dclose = numpy.empty((n,), dtype=X.dtype)
+    limit = n // k
+    bad = []
+
+    def tracer(frame, event, arg):
+        if frame.f_code is not fn.__code__:
+            return None
+        if event == "line" and frame.f_lineno == head and not bad:
+            loc = frame.f_locals
+            lab, cnt, tr, flag = loc["labels"], loc["counters"], loc.get("transfer"), loc["distances_close"]
+            if tr is None:
+                return tracer
+            if numpy.bincount(lab, minlength=k).tolist() != cnt.tolist():
+                bad.append("counters %r do not count the labels %r" % (cnt.tolist(), numpy.bincount(lab, minlength=k).tolist()))
+            for (a_, b_), lst in tr.items():
+                for g_, p_ in lst:
+                    if not (0 <= p_ < n) or (flag[p_] == 0 and lab[p_] != a_):
+                        bad.append("transfer[%r, %r] lists point %r which is not flagged and has label %r" % (a_, b_, p_, int(lab[p_])))
+        return tracer
+    old = sys.gettrace()
+    sys.settrace(tracer)
+    try:
+        M._constraint_association(n - limit * k, counters, labels, leftclose, dclose, centers, X, (X ** 2).sum(axis=1), limit, "gain",
+                                  state=numpy.random.RandomState(c["seed"]))
+    except AssertionError as e:
+        if not str(e).startswith("The algorithm failed, counters="):
+            raise
+    finally:
+        sys.settrace(old)
+    if bad:
+        return dict(**{"class": "gain-proved-invariant-fails-natively"}, what=bad[0])
+    cnt = numpy.bincount(labels, minlength=k)
+    if labels.min() < 0 or labels.max() >= k:
+        return dict(**{"class": "labels-invalid"}, what="labels %r" % labels.tolist())
+    return None
+
+
 def sizes_ok(labels, n, k):
     cnt = numpy.bincount(labels, minlength=k)
     return len(cnt) == k and cnt.min() >= n // k and cnt.max() <= -(-n // k), cnt.tolist()
@@ -31,6 +95,8 @@ def sizes_ok(labels, n, k):
 
 def check(c):
     from mlinsights.mlmodel import ConstraintKMeans
+    if c.get("kind") == "gain-invariants":
+        return gain_invariants(c)
     n, k = c["n"], c["k"]
     rs = numpy.random.RandomState(c["seed"] * 1000 + n * 10 + k)
     X = numpy.round(rs.rand(n, c["d"]) * 10, 1)
